@@ -2,18 +2,23 @@
 from .ir import sk, pp, cval, NEG, FLIP
 
 
-def lin(e, resolve=None):
+def lin(e, resolve=None, expand=None, _depth=0):
     """(atoms: {key: coef}, const) or None.  `resolve(key)` may map an atom key
-    to a replacement key (single-definition locals)."""
+    to a replacement key; `expand` maps an atom key to an expression that is
+    normalised in its place (single-definition locals)."""
     e = sk(e)
     if e is None:
         return None
+    if expand and _depth < 4:
+        ke = pp(e)
+        if ke in expand:
+            return lin(expand[ke], resolve, {k: v for k, v in expand.items() if k != ke}, _depth + 1)
     v = cval(e)
     if v is not None and e.get("k") in ("Int", "Sizeof", "Ref", "Bin", "Un", "Cond"):
         return {}, v
     k = e.get("k")
     if k == "Bin" and e["op"] in ("+", "-"):
-        a, b = lin(e["a"][0], resolve), lin(e["a"][1], resolve)
+        a, b = lin(e["a"][0], resolve, expand, _depth), lin(e["a"][1], resolve, expand, _depth)
         if a is None or b is None:
             return None
         s = 1 if e["op"] == "+" else -1
@@ -22,7 +27,7 @@ def lin(e, resolve=None):
             at[key] = at.get(key, 0) + s * c
         return {k2: c for k2, c in at.items() if c}, a[1] + s * b[1]
     if k == "Bin" and e["op"] == "*":
-        a, b = lin(e["a"][0], resolve), lin(e["a"][1], resolve)
+        a, b = lin(e["a"][0], resolve, expand, _depth), lin(e["a"][1], resolve, expand, _depth)
         if a is None or b is None:
             return None
         if not a[0]:
@@ -31,7 +36,7 @@ def lin(e, resolve=None):
             return {pp(e): 1}, 0
         return {k2: c * b[1] for k2, c in a[0].items() if c * b[1]}, a[1] * b[1]
     if k == "Un" and e["op"] == "-":
-        a = lin(e["a"][0], resolve)
+        a = lin(e["a"][0], resolve, expand, _depth)
         if a is None:
             return None
         return {k2: -c for k2, c in a[0].items()}, -a[1]
@@ -39,6 +44,31 @@ def lin(e, resolve=None):
     if resolve:
         key = resolve(key) or key
     return {key: 1}, 0
+
+
+def sub(a, b):
+    at = dict(a[0])
+    for key, c in b[0].items():
+        at[key] = at.get(key, 0) - c
+    return {k: c for k, c in at.items() if c}, a[1] - b[1]
+
+
+def add(a, b):
+    at = dict(a[0])
+    for key, c in b[0].items():
+        at[key] = at.get(key, 0) + c
+    return {k: c for k, c in at.items() if c}, a[1] + b[1]
+
+
+def show(f):
+    if f is None:
+        return "unchecked"
+    parts = []
+    for k, c in sorted(f[0].items()):
+        parts.append(("%s" % k) if c == 1 else ("-%s" % k if c == -1 else "%d*%s" % (c, k)))
+    if f[1] or not parts:
+        parts.append(str(f[1]))
+    return " + ".join(parts).replace("+ -", "- ")
 
 
 def norm_cmp(l, op, r, resolve=None):
